@@ -240,6 +240,22 @@ func runUT(args []string) string {
 	return unmarshalErrClass(err) + " | " + msgShow(m)
 }
 
+// GWT <msg> <k|-> <j> <e>: WT, then MarshalText and String of the same message, for the translated encoders
+// (Gen/Write.lean: Message_WriteTo, Message_MarshalText, Message_String)
+func runGWT(args []string) string {
+	if len(args) != 4 {
+		return "bad-args"
+	}
+	wt := runWT(args)
+	m := buildMsg(args[0])
+	b, err := m.MarshalText()
+	mt := hx(b)
+	if err != nil {
+		mt = "ERR(" + err.Error() + ")"
+	}
+	return fmt.Sprintf("%s | %s | %s", wt, mt, hx([]byte(m.String())))
+}
+
 // GUT <hex>: UT for the translated UnmarshalText, which does not keep which strconv error it wrapped
 func runGUT(args []string) string {
 	r := runUT(args)
@@ -530,6 +546,7 @@ func init() {
 	runners["RT"] = runRT
 	runners["UT"] = runUT
 	runners["GUT"] = runGUT
+	runners["GWT"] = runGWT
 	runners["FLD"] = runFLD
 	runners["FAM"] = runFAM
 }
